@@ -3133,7 +3133,8 @@ class Gaussian(Preparation, Decomposition):
             # covariance matrix consists of x/p quadrature squeezed state
             for n, expr in enumerate(D[: self.ns]):
                 if np.abs(expr - 1) >= _decomposition_tol:
-                    r = np.abs(np.log(expr) / 2)
+                    # V_xx = exp(-2r): a variance above the vacuum level is squeezing in p (r < 0)
+                    r = -np.log(expr) / 2
                     cmds.append(Command(Squeezed(r, 0), reg[n]))
                 else:
                     cmds.append(Command(Vac, reg[n]))
@@ -3143,7 +3144,9 @@ class Gaussian(Preparation, Decomposition):
             for n, v in enumerate(BD_modes):
                 if not np.all(v - np.identity(2) < _decomposition_tol):
                     r = np.abs(np.arccosh(np.sum(np.diag(v)) / 2)) / 2
-                    phi = np.arctan(2 * v[0, 1] / np.sum(np.diag(v) * [1, -1]))
+                    # v = R(phi/2) diag(e^-2r, e^2r) R(phi/2)^T:  v01 = -sinh(2r) sin(phi),
+                    # v00 - v11 = -2 sinh(2r) cos(phi); arctan2 keeps the quadrant of phi
+                    phi = np.arctan2(-2 * v[0, 1], v[1, 1] - v[0, 0])
                     cmds.append(Command(Squeezed(r, phi), reg[n]))
                 else:
                     cmds.append(Command(Vac, reg[n]))
